@@ -6,6 +6,6 @@ REPO="${VERIF_REPO:-/repo}"
 export GOFLAGS=-mod=mod GOPROXY=off GOSUMDB=off GOTOOLCHAIN=local CGO_ENABLED=0
 mkdir -p build evidence
 (cd go && cp "$REPO/go.sum" . 2>/dev/null; go run ./factgen -repo "$REPO" -out ../lean/Sheens/Gen/Facts.lean; go run ./go2lean -repo "$REPO" -out ../lean/Sheens/Gen/GoAst.lean)
-(cd lean && lake build Sheens driver Sheens.Props.FactsOK)
+(cd lean && lake build Sheens driver Sheens.Props.FactsOK Sheens.Props.TrMatchArms Sheens.Props.TrCore)
 (cd go && cp "$REPO/go.sum" . 2>/dev/null || true; go build -o ../build/harness ./cmd/harness && go build -o ../build/emitter ./cmd/emitter)
 echo setup ok
